@@ -73,6 +73,9 @@ func writeEvidence(p *Property, o DriveOpts, agg *Agg, wall float64, viol int, k
 		cov["observed_classes"] = tg
 	}
 	cov["worker_deaths"] = agg.Deaths
+	if kfIDs == nil {
+		kfIDs = []string{}
+	}
 	cov["known_findings_matched"] = kfIDs
 	cov["exhaustive"] = false
 	if p.Extra != nil {
